@@ -162,8 +162,11 @@ func init() {
 				j.Name, j.Params = "ring-n4-long-labels", map[string]int64{"n": 4, "seed": 3, "perms": 6, "long": 1}
 				return j
 			}(),
-			{Pkg: "./handlers/memcached/cluster", Func: "ZZClusterSetGet", Params: map[string]int64{"n": 3}, Reach: []string{"set-done", "get-done"}, Bounds: "the real cluster Handler over 3 nodes (std handlers onto memcached models): set of a symbolic 2-byte key through one handler, get through a second handler over its own connection objects with the nodes listed in reverse; MD5 uninterpreted (any 32-bit ring location)"}},
-		Thorough: []Job{ring(3, 7, rb), ring(5, 3, rb), ring(16, 4, rb), ring(25, 3, rb), ring(30, 6, rb), ring(32, 5, rb)}})
+			{Pkg: "./handlers/memcached/cluster", Func: "ZZClusterSetGet", Params: map[string]int64{"n": 3}, Reach: []string{"set-done", "get-done"}, Bounds: "the real cluster Handler over 3 nodes (std handlers onto memcached models): set of a symbolic 2-byte key through one handler, get through a second handler over its own connection objects with the nodes listed in reverse; MD5 uninterpreted (any 32-bit ring location)"},
+			{Pkg: "./handlers/memcached/cluster", Func: "ZZClusterSetGet", Name: "set-get-after-other-lookups", Params: map[string]int64{"n": 3, "warm": 1, "keylen": 6}, Reach: []string{"warmed", "set-done", "get-done"}, Bounds: "as ZZClusterSetGet with a 6-byte symbolic key, after the setting connection looked another (concrete) key up (routing does not depend on what a connection did before); MD5 uninterpreted"}},
+		Thorough: []Job{
+			{Pkg: "./handlers/memcached/cluster", Func: "ZZClusterSetGet", Name: "set-get-after-two-other-lookups", Params: map[string]int64{"n": 4, "warm": 2, "keylen": 6}, Reach: []string{"warmed", "set-done", "get-done"}, Bounds: "4 nodes, 6-byte symbolic keys, two earlier lookups of other (concrete) keys on the setting connection; MD5 uninterpreted"},
+			ring(3, 7, rb), ring(5, 3, rb), ring(16, 4, rb), ring(25, 3, rb), ring(30, 6, rb), ring(32, 5, rb)}})
 
 	ck := func(fn string, params map[string]int64, reach, bounds string, qt int) Job {
 		name := fn
